@@ -954,10 +954,20 @@ theorem loop_inert (rels : List (String × String)) : ∀ (evs : List Ev), Inert
     simp only [List.cons_append]
     cases e with
     | start n a =>
-      simp only [xlsxInterpreted, List.mem_cons, List.not_mem_nil, or_false, not_or] at he
-      obtain ⟨h0, h1, h2, h3⟩ := he
-      rw [loop_start_skip cfgNow rels n a _ st hc hk h0 h1 (by simp [cfgNow, h2]) h3]
-      exact ih hes rest st hc hk
+      obtain ⟨hni, hpr⟩ := he
+      simp only [xlsxAlwaysInterpreted, List.mem_cons, List.not_mem_nil, or_false, not_or] at hni
+      obtain ⟨h0, h1, h3⟩ := hni
+      by_cases h2 : localName n = "workbookPr"
+      · -- a `workbookPr` without `date1904`: the flag stays as it is
+        obtain ⟨sh, nm, d, cur, sk⟩ := st
+        simp only at hc hk; subst hc; subst hk
+        rw [loop_start_pr cfgNow rels n a _ sh nm d h0 h1 (by simp [cfgNow, h2])]
+        have hd : date1904Upd cfgNow.keepFlag d a = d := by
+          simp [date1904Upd, cfgNow, hpr h2]
+        rw [hd]
+        exact ih hes rest _ rfl rfl
+      · rw [loop_start_skip cfgNow rels n a _ st hc hk h0 h1 (by simp [cfgNow, h2]) h3]
+        exact ih hes rest st hc hk
     | end_ n =>
       rw [loop_end_skip cfgNow rels n _ st hc hk he]
       exact ih hes rest st hc hk
